@@ -993,3 +993,11 @@ def session_start_resets(ctx):
     for rx, what in ((r"TransportReader::reset$", "transport / link reader"), (r"TransportWriter::reset$", "transport writer")):
         rs = [c for c in call_sites(tb, rx) if tb.block_dominates(c.idx, run[0].idx) and c.idx != run[0].idx]
         ctx.check(bool(rs), "session-start-reset:%s" % rx.split("::")[0], "the %s is reset before the session runs" % what, tb.where(run[0].idx), bad_detail="OutstationTask::run does not reset the %s before running the session: a pre-empted session leaves its partial frame / fragment / sequence state to the next connection" % what)
+
+
+def only_via_arms(ctx, body, block, pred):
+    """`block` is reachable only through an edge whose guard satisfies pred (several match arms may share one body: or-patterns with
+    bindings lower to one binding block per alternative that all jump to the common body, so no single arm edge dominates it)."""
+    gi = ctx.gi(body)
+    edges = [g.edge for g in gi.all_guards() if not is_tracing(g.macros) and pred(g)]
+    return bool(edges) and block not in body.reachable(0, removed_edges=edges)
